@@ -229,7 +229,9 @@ def ward(distances, n, maxlag, **kwargs):
         maxlag = np.nanmax(distances)
 
     # filter for distances < maxlag
-    d = distances[np.where(distances <= maxlag)]
+    # sort the distances: agglomerative clustering breaks ties by position, which
+    # would make the edges depend on the order of the points / distance storage
+    d = np.sort(distances[np.where(distances <= maxlag)])
 
     # cluster the filtered distances
     w = AgglomerativeClustering(linkage='ward', n_clusters=n).fit(d.reshape(-1, 1))
